@@ -281,6 +281,10 @@ def _worker(args):
                 agg.viols.append({"sig": engine.signature(v), "scenario": sc2, "violation": v})
         idx += nworkers
     agg.c["wall_worker"] = 0
+    from sim import coop
+
+    agg.c["coop_locks_created"] += coop.STATS["coop_locks_created"]
+    agg.c["coop_contended_acquires"] += coop.STATS["contended_acquires"]
     cold.stop()
     faulthandler.cancel_dump_traceback_later()
     return agg.to_wire()
@@ -561,6 +565,7 @@ def run_check(pid, tier, seed, workers=None, budget=None):
             "faults_fired_total": c["faults_fired"],
             "op_mix": dict(labels.most_common(60)),
             "l1": {k: c[k] for k in ("l1_ops", "l1_evals", "l1_multi", "l1_unchecked", "l1_relaxed")},
+            "cooperative_locks_in_code_under_test": {"created": c["coop_locks_created"], "contended_acquires_resolved_by_yielding": c["coop_contended_acquires"]},
             "l1_cold_process": {"client_programs_re_executed_in_pristine_fork": c["cold_clients"], "ops_compared": c["cold_ops"]},
             "l2": {k: v for k, v in c.items() if k.startswith("l2_")},
             "probes": probes,
